@@ -5,6 +5,13 @@ V = "/verif"
 props = [json.loads(l) for l in open(V + "/properties.jsonl")]
 
 CLAIMED = {
+ "C05": dict(
+    text="GATED-EFFECT / WHO / GUARD rules over e2fsck passes 1-5, super.c and badblocks.c: each of ~200 call sites that change persistent metadata executes only after a problem was reported and its fix accepted "
+         "(directly; through a local, struct field or context flag bit every non-zero store of which is itself gated; through a helper derived to return such an answer; or because every call site of the enclosing function, callbacks included, is gated), "
+         "or in an explicitly requested mode (-D, bmap2extent, unshare_blocks, discard), or on a listed path with its reason (orphan processing and VALID_FS bookkeeping additionally shown to sit behind the read-only test); "
+         "no function of pass5.c reaches an inode/dir/extent/xattr writer (positive control on pass2.c); a checksum-only mismatch leads to rewriting, not clearing; extent merges require equal UNINIT flags. "
+         "On a consistent filesystem no problem is raised, so no gated mutator runs. Decides gating and layering; not that -D / extent rebuilding preserve names and bytes.",
+    ref="§4 C05", technique="static analysis: edge-gating reachability with derived answer functions / gated flags, interprocedural call-site propagation, who-may-call"),
  "C01": dict(
     text="ORDER/PURITY/PATH rules over e2fsck: every in-place change of the live block/inode bitmap is followed (or dominated) by its dirty-mark on every path on which the repair completes, with open obligations passed to call sites and callback receivers up the call graph; "
          "fix_problem's declined-answer bookkeeping and the exit-status computation (shared with C02.c); pass table order 1<2<3<4<5 with pass 5 last, RUN_RETURN tested before each pass, restart honoured; end-of-run bitmaps < flush < io flush < close on every writable path with PR_FATAL failure rows; "
